@@ -108,6 +108,7 @@ def run_one(tape: Tape, tier: str, opts: dict) -> dict:
         case = {"cfg": cfg, "perm_kind": "fixed", "perm": perm}
         desc = {"backend": backend, "atoms": scn["atoms"], "ops": scn["ops"], "dt": dt, "T": T, "noise": noise, "n_trajectories": ntraj, "observables": [o["kind"] for o in obs], "times": times, "shots": obs[0]["shots"], "internal_order": perm if cfg.get("optimize") else None}
         history: list[dict] = []
+        first: dict[int, tuple] = {}
 
         def setup(inc: Any, probe: Any) -> None:
             import emu_mps.mps_backend as mb
@@ -116,7 +117,14 @@ def run_one(tape: Tape, tier: str, opts: dict) -> dict:
             cls = mb.MPSBackend if backend == "mps" else sb.SVBackend
 
             def before(sequence_data: Any, config: Any, *a: Any, **k: Any) -> Any:
-                return {"data": copy.deepcopy(sequence_data), "data_id": id(sequence_data), "rng": rng_snapshot()}
+                # Pulser groups identical noise trajectories: their `reps` SequenceData objects share the same drive
+                # tensors.  Every repetition is re-simulated from the copy taken when those tensors were FIRST seen,
+                # so a run that leaks state into the shared data (and so into the next repetition) shows up.
+                om = getattr(sequence_data, "omega", None)
+                key = id(om)
+                if key not in first:
+                    first[key] = (om, copy.deepcopy(sequence_data))  # keeping `om` alive keeps its id unique
+                return {"data": first[key][1], "data_id": key, "rng": rng_snapshot()}
 
             def after(tok: Any, ret: Any, *a: Any, **k: Any) -> None:
                 tok["result"] = R.canon_results(ret)
@@ -190,7 +198,21 @@ def run_one(tape: Tape, tier: str, opts: dict) -> dict:
         # ---- isolation: re-simulate recorded trajectories alone
         n_iso = min(len(history), 3 if tier == "quick" else 6)
         if n_iso and history:
-            picks = sorted(set(tape.int(0, len(history) - 1, f"iso{i}") for i in range(n_iso)))
+            picks = set(tape.int(0, len(history) - 1, f"iso{i}") for i in range(n_iso))
+            # bias towards where in-flight state exists: the LAST repetition of a group that shares its drive
+            # tensors with earlier repetitions, first of all groups with dark atoms (the SUT masks those in place)
+            last_of: dict[int, int] = {}
+            count_of: dict[int, int] = {}
+            for i_h, h_ in enumerate(history):
+                last_of[h_["data_id"]] = i_h
+                count_of[h_["data_id"]] = count_of.get(h_["data_id"], 0) + 1
+            shared = [i_h for k_, i_h in last_of.items() if count_of[k_] > 1]
+            dark = [i_h for i_h in shared if any(history[i_h]["data"].bad_atoms)]
+            if dark:
+                picks.add(dark[tape.int(0, len(dark) - 1, "iso_dark")])
+            if shared:
+                picks.add(shared[tape.int(0, len(shared) - 1, "iso_shared")])
+            picks = sorted(picks)
             for k in picks:
                 h = history[k]
 
